@@ -136,6 +136,8 @@ class FormatConstraintEvaluation:
     """absent / empty expression counts as fulfilled without message; otherwise value and message of the root"""
     params = dict(format_constraints_expression=Opt(Str()))
     raises = {"SyntaxError": None, "ValueError": None, "Exception": None, "NotImplementedError": None}
+    returns = Inst("FormatConstraintEvaluationResult", format_constraints_fulfilled=Bool(), error_message=Opt(Str()))
+    ghost_specs = {"fold_root": efc_j}
 
     def post_empty_counts_as_fulfilled(format_constraints_expression, result):
         if format_constraints_expression is None or format_constraints_expression == "":
